@@ -157,3 +157,26 @@ Definition kf_nonsquare (m : module) (w : options) : bool :=
                                            | Some t => snd (member_type_shape m t)
                                            | None => false
                                            end) (user_members (snd e))) (emitted_structs m).
+
+(** * premise of the nested-struct clause *)
+Fixpoint has_struct (m : module) (fuel : nat) (t : ty) : bool :=
+  match fuel with
+  | O => true
+  | S k =>
+      match t_inner t with
+      | TStruct _ _ => true
+      | TArray base _ _ => match get_ty m base with Some bt => has_struct m k bt | None => false end
+      | _ => false
+      end
+  end.
+
+(** premise (WGSL rule, evaluated per case): a struct that is emitted only because it is an entry point
+    parameter (an IO struct) has no struct-typed members *)
+Definition wf_io_structs (m : module) : bool :=
+  forallb (fun e => host_shareable_b m (fst (fst e))
+                    || forallb (fun mem => match get_ty m (m_ty mem) with
+                                           | Some t => negb (has_struct m (S (length (types m))) t)
+                                           | None => true
+                                           end) (user_members (snd e)))
+          (emitted_structs m).
+
